@@ -794,6 +794,7 @@ type ttTSOpts struct {
 	video      bool
 	period     int
 	vbi        bool
+	emptyDesc  bool // the teletext descriptor lists no page (zero-length descriptor)
 	pcrOnly    bool // unused
 }
 
@@ -810,6 +811,20 @@ func ttDescriptor(vbi bool) *astits.Descriptor {
 	return &astits.Descriptor{Tag: astits.DescriptorTagTeletext, Length: 5, Teletext: d}
 }
 
+func ttDescriptorOpt(vbi, empty bool) *astits.Descriptor {
+	d := ttDescriptor(vbi)
+	if empty {
+		d.Length = 0
+		if d.Teletext != nil {
+			d.Teletext = &astits.DescriptorTeletext{}
+		}
+		if d.VBITeletext != nil {
+			d.VBITeletext = &astits.DescriptorTeletext{}
+		}
+	}
+	return d
+}
+
 func buildTS(r *rng, c ttCase, o ttTSOpts) []byte {
 	var buf bytes.Buffer
 	mx := astits.NewMuxer(context.Background(), &buf, astits.MuxerOptTablesRetransmitPeriod(o.period))
@@ -824,7 +839,7 @@ func buildTS(r *rng, c ttCase, o ttTSOpts) []byte {
 		mx.AddElementaryStream(astits.PMTElementaryStream{ElementaryPID: o.pid - 1, StreamType: astits.StreamTypePrivateData})
 	}
 	mx.AddElementaryStream(astits.PMTElementaryStream{ElementaryPID: o.pid, StreamType: astits.StreamTypePrivateData,
-		ElementaryStreamDescriptors: []*astits.Descriptor{ttDescriptor(o.vbi)}})
+		ElementaryStreamDescriptors: []*astits.Descriptor{ttDescriptorOpt(o.vbi, o.emptyDesc)}})
 	if o.secondTT {
 		mx.AddElementaryStream(astits.PMTElementaryStream{ElementaryPID: o.pid + 1, StreamType: astits.StreamTypePrivateData,
 			ElementaryStreamDescriptors: []*astits.Descriptor{ttDescriptor(false)}})
